@@ -26,6 +26,8 @@ def ev(e, state, now, hd_done):
         return OPS[e[2]](state['t'][e[1]], state['t'][e[3]])
     if k == 'rcmp':
         # documented: elementwise over *every* kind of the resource, kinds that are not named count as zero
+        if e[2] == '!=':
+            return not all(state['r'][f] == e[3].get(f, 0) for f in state['r'])
         return all(OPS[e[2]](state['r'][f], e[3].get(f, 0)) for f in state['r'])
     if k == 'done':
         return hd_done
@@ -100,7 +102,9 @@ def cases(draw, tier):
             lv = {'a': draw(st.integers(0, 3))}
             if draw(st.booleans()):
                 lv['b'] = draw(st.integers(0, 3))          # several kinds: the comparison holds iff it holds for every kind
-            rc = ['rcmp', 'R', draw(st.sampled_from(['>=', '<=', '==', '>', '<'])), lv]
+            rc = ['rcmp', 'R', draw(st.sampled_from(['>=', '<=', '==', '>', '<', '!='])), lv]
+            if draw(st.integers(0, 2)) == 0:
+                rc.append('obj')
             return ['not', rc] if draw(st.integers(0, 2)) == 0 else rc
         if k < 11:
             return ['done', 'hd'] if draw(st.booleans()) else ['not', ['done', 'hd']]
